@@ -55,7 +55,7 @@ def permute_spec(s):
         eps=pt(s["eps"]), mu=pt(s["mu"]),
         eps_full=(None if s.get("eps_full") is None else tuple(tuple(s["eps_full"][(i - 1) % 3][(j - 1) % 3] for j in range(3)) for i in range(3))),
         dipoles=[dict(pos=pt(d["pos"]), pol=(d["pol"] + 1) % 3, kind=d["kind"]) for d in s["dipoles"]],
-        planes=[dict(axis=(p["axis"] + 1) % 3, index=p["index"], direction=p["direction"], pol=pt(p["pol"])) for p in s["planes"]],
+        planes=[dict(axis=(p["axis"] + 1) % 3, index=p["index"], direction=p["direction"], pol=pt(p["pol"]), az=p.get("az", 0.0), el=p.get("el", 0.0)) for p in s["planes"]],
         dets=[dict(lo=pt(d["lo"]), shape=pt(d["shape"])) for d in s["dets"]],
     )
 
@@ -89,6 +89,10 @@ _SPECS = {
 }
 
 
+# a TILTED plane source (azimuth / elevation are defined relative to the right-handed transverse pair of the propagation
+# axis, so the same angles describe the relabelled source; seeded change C08b: wrong pair for y-propagation)
+_SPECS["pml-x-tilted-plane"] = dict(_SPECS["pml-x-plane"], dipoles=[], planes=[dict(axis=0, index=3, direction="-", pol=(0.0, 1.0, 0.0), az=20.0, el=10.0)])
+
 _SPECS["full-tensor-dipoles"] = dict(
     shape=(3, 4, 2), bounds={"min_x": "periodic", "max_x": "periodic", "min_y": "pec", "max_y": "pmc", "min_z": "periodic", "max_z": "periodic"},
     thickness={}, eps=(2.0, 2.5, 3.0), mu=(1.0, 1.0, 1.0),
@@ -100,7 +104,7 @@ _SPECS["full-tensor-dipoles"] = dict(
 
 def cases(tier, seed):
     T = 3 if tier == "quick" else 5
-    names = ["pml-z-dipoles", "pml-x-plane", "full-tensor-dipoles"] if tier == "quick" else list(_SPECS)
+    names = ["pml-z-dipoles", "pml-x-plane", "pml-x-tilted-plane", "full-tensor-dipoles"] if tier == "quick" else list(_SPECS)
     return [dict(name=n, T=(T if "full-tensor" not in n else min(T, 2))) for n in names]
 
 
@@ -116,7 +120,10 @@ def _build_with(s, T, mat_override):
     for i, d in enumerate(s["dipoles"]):
         extra.append(dipole(f"dip{i}", d["pos"], pol=d["pol"], kind=d["kind"]))
     for i, p in enumerate(s["planes"]):
-        extra.append(plane_source(f"pl{i}", p["axis"], p["index"], p["direction"], pol=list(p["pol"])))
+        kw = {}
+        if p.get("az") or p.get("el"):
+            kw = dict(azimuth_angle=p.get("az", 0.0), elevation_angle=p.get("el", 0.0))
+        extra.append(plane_source(f"pl{i}", p["axis"], p["index"], p["direction"], pol=list(p["pol"]), **kw))
     for i, d in enumerate(s["dets"]):
         extra.append(box_detector(fdtdx.FieldDetector, f"det{i}", d["lo"], d["shape"], dtype=jnp.float64, exact_interpolation=False))
     th = {f: 1 for f in ("min_x", "max_x", "min_y", "max_y", "min_z", "max_z")}
